@@ -150,6 +150,7 @@ impl<'a, L> Engine<'a, L> {
         for inode in list_seeds {
             self.mark_list_node(inode);
         }
+        self.unmark_unanchored_list_nodes();
         // check that candidate compound literals are indeed compound literels
         if self.options.rdf_direction() == Some(RdfDirection::CompoundLiteral) {
             let mut compound_literals = std::mem::take(&mut self.compound_literals);
@@ -197,6 +198,41 @@ impl<'a, L> Engine<'a, L> {
                 }
             }
         }
+    }
+
+    /// A list node is rendered inside the `@list` generated for its parent.
+    /// If the chain of parents of a list node never reaches a node that is actually rendered
+    /// (e.g. a list that is, directly or not, one of its own items),
+    /// then it must not be considered as a list node, otherwise it would disappear.
+    fn unmark_unanchored_list_nodes(&mut self) {
+        // anchored[i] is Some(verdict) once list node i has been examined,
+        // and None while it is being examined
+        let mut anchored: HashMap<usize, Option<bool>> = HashMap::new();
+        let inodes: Vec<usize> = self.list_node.keys().copied().collect();
+        for inode in inodes {
+            let mut path = vec![];
+            let mut cur = inode;
+            let verdict = loop {
+                match anchored.get(&cur) {
+                    Some(Some(verdict)) => break *verdict,
+                    Some(None) => break false, // we are looping
+                    None => {}
+                }
+                match self.list_node.get(&cur) {
+                    None => break true, // not a list node: it will be rendered
+                    Some(iparent) => {
+                        anchored.insert(cur, None);
+                        path.push(cur);
+                        cur = *iparent;
+                    }
+                }
+            };
+            for i in path {
+                anchored.insert(i, Some(verdict));
+            }
+        }
+        self.list_node
+            .retain(|inode, _| anchored[inode] == Some(true));
     }
 
     fn jsonify(
